@@ -1,7 +1,7 @@
 (** Output side: Serialize impls (value -> JSON tree), the compact JSON text
     that serde_json writes, logfmt rows. *)
 From Coq Require Import List ZArith NArith Bool Floats.SpecFloat.
-From AG Require Import Str F64 Value Json Expr Ops Pipeline.
+From AG Require Import Str F64 Value Json Expr Ops Pipeline DatePaths.
 Import ListNotations.
 Open Scope string_scope.
 Open Scope list_scope.
@@ -77,3 +77,11 @@ Section Ser.
                                                 | None => JNull end)) (t_cols t)))
               (t_rows t)).
 End Ser.
+
+(** the date text of the JSON output: the "Serialize" path of data.rs, [to_rfc3339] (DateFmt.v); the
+    serializers with that text filled in (the duration text stays a parameter: chrono's Duration Display) *)
+Definition ser_date : Z -> str :=
+  match date_form "Serialize" with Some f => f | None => fun _ => [] end.
+Definition value_json (fmt_dur : Z -> str) : value -> jtree := value_to_json ser_date fmt_dur.
+Definition record_json (fmt_dur : Z -> str) : data -> jtree := record_to_json ser_date fmt_dur.
+Definition table_json (fmt_dur : Z -> str) : table -> jtree := table_to_json ser_date fmt_dur.
